@@ -215,7 +215,7 @@ def _havoc_modified(engine, st, stmt, names, paths):
             continue
         cur = st.vars[n]
         if isinstance(cur, Ref):
-            hv = st.heap[cur.id]
+            hv = dict.__getitem__(st.heap, cur.id)
             if isinstance(hv, V):
                 # rebinding a container name: new identity + fresh content
                 nv = engine.havoc_t(st, hv.t, f"lh.{n}", stmt)
@@ -240,7 +240,7 @@ def _havoc_modified(engine, st, stmt, names, paths):
 def havoc_path(engine, st, stmt, cur, attrs, label):
     if not isinstance(cur, Ref):
         return
-    hv = st.heap[cur.id]
+    hv = dict.__getitem__(st.heap, cur.id)  # (a view made stale by an earlier havoc of its container is re-attached afterwards)
     if isinstance(hv, V):
         nv = engine.havoc_t(st, hv.t, f"lh.{label}", stmt)
         st.heap[cur.id] = nv
